@@ -106,7 +106,7 @@ func TestC33(t *testing.T) {
 	c := kit.NewCheck(t, "C33", "exploration",
 		"cases = generated base denominations (1-6 '/'-separated segments shaped like ports, channel-N, clienttype-N, numbers, words, symbols) that the bank module and the origin's MsgTransfer accept; each is sent A→B (v1 channel, its v2 alias, or a v2 client pair) and the received voucher is sent back; distinct = distinct (segment-shape, lane kind) classes; non-trivial = denomination with at least one '/'")
 	defer c.Finish()
-	c.Floor("round_trips_completed", 60)
+	c.Floor("round_trips_completed", 30)
 	c.Floor("origin_rejected", 0)
 	n := c.N(5, 10)
 	per := 40
